@@ -69,13 +69,13 @@ def boundary(leaf: nf.Leaf, lit: Lit):
     return res, why
 
 
-def match_all(leaves, lits):
+def match_all(leaves, lits, allow_reduced=False):
     """Assign every comparison literal of the row to a distinct code literal (backtracking);
     returns {lit.name: (leaf | None, elsewhere, reversed)}."""
     cands = {}
     info = {}
     for lit in lits:
-        good, elsewhere, rev = find_literal(leaves, lit)
+        good, elsewhere, rev = find_literal(leaves, lit, allow_reduced=allow_reduced)
         cands[lit.name] = good
         info[lit.name] = (elsewhere, rev)
     cmps = [l for l in lits if l.kind == "cmp"]
